@@ -294,6 +294,17 @@ class Typer:
         if name == "var":
             t = self.ty(args[0])
             return T(2 * t.d, 0) if isinstance(t, T) else t
+        if name.split(".")[-1] in ("resample_poly", "upfirdn", "decimate", "lfilter", "convolve", "fftconvolve") and args:
+            # FIR / polyphase filtering treats everything outside the record as 0 V unless another padding is requested: for data
+            # that shift with the waveform the edge transient (and everything estimated from samples it reaches) depends on the offset
+            t = self.ty(args[0] if name.split(".")[-1] != "upfirdn" else (args[1] if len(args) > 1 else args[0]))
+            pad = kw.get("padtype")
+            zero_pad = name.split(".")[-1] != "resample_poly" or pad is None or (isinstance(pad, Const) and pad.v == "constant" and "cval" not in kw)
+            if isinstance(t, T) and t.s != 0 and zero_pad:
+                self.err(f"{name.split('.')[-1]}({short(args[0], 40)}, ...)", "the record is extended with the literal 0 V at its ends (zero padding): a level, which shifts with the waveform, is mixed with 0 - "
+                                                                            "the edge transient grows with the offset of the input and the estimates are not offset-equivariant")
+                return BAD
+            return t
         if name in self.SAME or name in ("sum",):
             if "where" in kw:
                 self.ty(kw["where"])
@@ -577,7 +588,15 @@ def run(ctx):
             if isinstance(ywave, Form):
                 ya = ywave.single_atom()
                 S_ = S("gv.sps")
-                if ya is not None and ya[0] == "fn" and ya[1].split(".")[-1] == "resample" and len(ya[2]) >= 2:
+                if ya is not None and ya[0] == "fn" and ya[1].split(".")[-1] == "resample_poly" and len(ya[2]) >= 3:
+                    up, down = ya[2][1], ya[2][2]
+                    ok_rate = isinstance(up, Form) and isinstance(down, Form) and up * S_ == down * S("sps_resamp")
+                    lx = _flen(ya[2][0])
+                    NL = _slots_of_axis(eye.fields.get("t"))
+                    ok_len = lx is not None and NL is not None and lx == NL * S_
+                    ctx.check("C17.5", bool(ok_rate and ok_len), fi, rets[0].node, f"GET_EYE [{case}]: polyphase resampling keeps the slot rate (up/down == sps_resamp/sps) on a record of nslots*sps samples", "the record is cut to the slots the time axis covers",
+                              "the up/down ratio is not sps_resamp/sps, or the record handed to the resampler does not hold exactly the slots the time axis is built for")
+                elif ya is not None and ya[0] == "fn" and ya[1].split(".")[-1] == "resample" and len(ya[2]) >= 2:
                     lx, num = _flen(ya[2][0]), ya[2][1]
                     spr = S("sps_resamp")
                     if lx is None or not isinstance(num, Form):
